@@ -20,6 +20,7 @@ type C03Case struct {
 	FIFO   bool    `json:"fifo"`
 	CapArg int     `json:"caparg"` // >0 capacity; 0 => And(0); -1 => And() ; < -1 => And(negative)
 	Amb    int     `json:"amb,omitempty"`
+	NoNest bool    `json:"nonest,omitempty"` // SetNoNesting(true): only non-Stack values are offered, so capacity must be enforced exactly as without it
 	Policy bool    `json:"policy,omitempty"` // an accept-everything push policy is installed (capacity must be enforced all the same)
 	Ops    []C03Op `json:"ops"`
 }
@@ -95,8 +96,14 @@ func runC03(c C03Case) (st Stats, err error) {
 			s.SetPushPolicy(func(...any) error { return nil })
 		}
 		ApplyAmbient(s, c.Amb&^AmbPushOK)
+		if c.NoNest {
+			s.SetNoNesting(true)
+		}
 	}); p != "" {
 		return st, violf("setup/panic", "setup panicked: %s", p)
+	}
+	if c.NoNest {
+		st.Class("no-nesting-receiver")
 	}
 	if c.Policy {
 		st.Class("with-push-policy")
@@ -105,7 +112,7 @@ func runC03(c C03Case) (st Stats, err error) {
 		return st, v
 	}
 	tag := 0
-	next := func() any { tag++; return tagValue(tag) }
+	next := func() any { tag++; return tagValueP(tag) }
 	shrunk := false
 	k := m.Cap
 
@@ -237,7 +244,7 @@ func runC03(c C03Case) (st Stats, err error) {
 			case "marshal":
 				// Marshal into an initialised receiver adds at most one element, none when full
 				var env []any
-				if op.A%2 == 0 {
+				if op.A%2 == 0 && !c.NoNest { // (a decoded Stack is not offered to a no-nesting receiver: C13's business)
 					env = []any{"AND", "x" + itoa(op.A), op.N}
 				} else {
 					env = []any{"CONDITION", "kw", stackage.Eq, "v" + itoa(op.N)}
@@ -317,6 +324,7 @@ func genC03(t *rapid.T, tier Tier) C03Case {
 	}
 	c.Policy = rapid.IntRange(0, 3).Draw(t, "policy?") == 0
 	c.Amb = drawAmbient(t, false)
+	c.NoNest = rapid.IntRange(0, 3).Draw(t, "nonest") == 0
 	ops := []string{"push", "push", "fill", "fill", "insert", "insert", "pop", "pop", "remove", "reset", "transfer", "marshal", "replace", "reverse"}
 	n := rapid.IntRange(1, maxOps).Draw(t, "nops")
 	k := c.CapArg
@@ -353,7 +361,7 @@ func init() {
 		Gen: genC03,
 		Run: runC03,
 		Floors: map[string]float64{"partial-fit-batch": 0.05, "insert-at-full": 0.05, "transfer-at-boundary": 0.03,
-			"growth-at-boundary-after-shrink": 0.2, "marshal-at-full": 0.02, "no-capacity": 0.03, "with-push-policy": 0.1},
+			"growth-at-boundary-after-shrink": 0.2, "marshal-at-full": 0.02, "no-capacity": 0.03, "with-push-policy": 0.1, "no-nesting-receiver": 0.1},
 		Assumptions: []string{"Transfer-into is only required to stay within capacity and to append a prefix of the source (its all-or-nothing result is C15)"},
 	})
 }
